@@ -70,6 +70,9 @@ fn ledger_remove(p: usize, size: usize, align: usize) {
         }
     }
 }
+pub fn is_live(p: usize) -> bool {
+    unsafe { p != 0 && (L0.0 == p || L1.0 == p || L2.0 == p || L3.0 == p || L4.0 == p || L5.0 == p || L6.0 == p) }
+}
 pub fn live_blocks() -> usize {
     unsafe { (L0.0 != 0) as usize + (L1.0 != 0) as usize + (L2.0 != 0) as usize + (L3.0 != 0) as usize + (L4.0 != 0) as usize + (L5.0 != 0) as usize + (L6.0 != 0) as usize }
 }
@@ -113,6 +116,32 @@ pub unsafe fn realloc_stub(ptr: *mut u8, layout: core::alloc::Layout, new_size: 
     }
 }
 
+// ------------------------------------------------------------------------------------------------ mock host (imports, rule R1)
+pub static mut SINK_CALLS: u32 = 0;
+pub static mut SINK_RECORDS_LIVE: bool = false;
+pub static mut SINK_LEN: usize = 0;
+pub static mut SINK_ELEM0: (usize, usize) = (0, 0);
+pub static mut SINK_FIRST_BYTE: u8 = 0;
+pub mod mockhost {
+    use super::*;
+    /// nested-list(option<list<string>>): flat (discriminant, pointer to (ptr,len) records, length)
+    pub unsafe fn verif_val_sinks__nested_list(disc: i32, records: *mut u8, len: usize) -> i32 {
+        unsafe {
+            SINK_CALLS += 1;
+            SINK_LEN = len;
+            if disc == 1 && len > 0 {
+                // the records buffer is scratch memory of the lowering: it must still be allocated while the callee runs
+                SINK_RECORDS_LIVE = is_live(records as usize);
+                SINK_ELEM0 = (core::ptr::read_unaligned(records.cast::<usize>()), core::ptr::read_unaligned(records.add(P).cast::<usize>()));
+                if SINK_ELEM0.1 > 0 {
+                    SINK_FIRST_BYTE = *(SINK_ELEM0.0 as *const u8);
+                }
+            }
+            disc
+        }
+    }
+}
+
 // ------------------------------------------------------------------------------------------------ the user's functions
 pub struct Impl;
 pub static mut CALLS: u32 = 0;
@@ -124,6 +153,8 @@ pub static mut SEEN_WORDS: Option<Vec<u32>> = None;
 pub static mut RET_WORDS: Option<Vec<u32>> = None;
 pub static mut SEEN_STRS: Option<Vec<String>> = None;
 pub static mut RET_STRS: Option<Vec<String>> = None;
+pub static mut SEEN_PAIRS: Option<Vec<(u8, u32, u8)>> = None;
+pub static mut RET_PAIRS: Option<Vec<(u8, u32, u8)>> = None;
 pub static mut SEEN_PT: (u8, u32) = (0, 0);
 pub static mut RET_PT: (u8, u32) = (0, 0);
 pub static mut SEEN_SHAPE: (u8, u64) = (0, 0); // (case, numeric payload)
@@ -181,6 +212,13 @@ impl Guest for Impl {
             CALLS += 1;
             SEEN_STRS = Some(a);
             RET_STRS.take().unwrap()
+        }
+    }
+    fn echo_pairs(a: Vec<(u8, u32, u8)>) -> Vec<(u8, u32, u8)> {
+        unsafe {
+            CALLS += 1;
+            SEEN_PAIRS = Some(a);
+            RET_PAIRS.take().unwrap()
         }
     }
     fn echo_pt(a: Pt) -> Pt {
@@ -715,5 +753,103 @@ mod proofs {
     #[kani::stub(alloc::string::String::from_utf8, from_utf8_stub)]
     pub fn c06_list_of_strings_memory_balanced() {
         body_list_of_strings(false, true);
+    }
+
+    /// list<tuple<u8, u32, u8>>, lengths 0..=2: a list whose element is a tuple is NOT a canonical list for Rust (rustc lays a
+    /// tuple out as it likes: here (u32, u8, u8), 8 bytes), so each element must be converted; canonical element layout:
+    /// u8 @0, u32 @4, u8 @8, size 12, alignment 4
+    fn body_list_of_pairs(values: bool, memory: bool) {
+        let n: usize = kani::any();
+        kani::assume(n <= 2);
+        let m: usize = kani::any();
+        kani::assume(m <= 2);
+        let ina: [u8; 2] = kani::any();
+        let inb: [u32; 2] = kani::any();
+        let inc: [u8; 2] = kani::any();
+        let outa: [u8; 2] = kani::any();
+        let outb: [u32; 2] = kani::any();
+        let outc: [u8; 2] = kani::any();
+        unsafe {
+            let mut r: Vec<(u8, u32, u8)> = Vec::new();
+            if m >= 1 { r.push((outa[0], outb[0], outc[0])); }
+            if m >= 2 { r.push((outa[1], outb[1], outc[1])); }
+            RET_PAIRS = Some(r);
+            let p: *mut u8 = if n == 0 { 4 as *mut u8 } else {
+                let p = alloc_stub(Layout::from_size_align(12 * n, 4).unwrap());
+                kani::assume(!p.is_null());
+                *p = ina[0];
+                p.add(4).cast::<u32>().write(inb[0]);
+                *p.add(8) = inc[0];
+                if n == 2 {
+                    *p.add(12) = ina[1];
+                    p.add(16).cast::<u32>().write(inb[1]);
+                    *p.add(20) = inc[1];
+                }
+                p
+            };
+            let ret = _export_echo_pairs_cabi::<Impl>(p, n);
+            let seen = SEEN_PAIRS.take().unwrap();
+            if values { kani::assert(CALLS == 1 && seen.len() == n && (n < 1 || seen[0] == (ina[0], inb[0], inc[0])) && (n < 2 || seen[1] == (ina[1], inb[1], inc[1])), "the list of tuples the host sent arrives unchanged, element by element"); }
+            drop(seen);
+            let (rp, rl): (*mut u8, usize) = (rd(ret, 0), rd(ret, P));
+            if values {
+                kani::assert(rl == m, "the returned list has the returned length");
+                if m >= 1 { kani::assert(rd::<u8>(rp, 0) == outa[0] && rd::<u32>(rp, 4) == outb[0] && rd::<u8>(rp, 8) == outc[0], "element 0 is stored in the canonical element layout"); }
+                if m >= 2 { kani::assert(rd::<u8>(rp, 12) == outa[1] && rd::<u32>(rp, 16) == outb[1] && rd::<u8>(rp, 20) == outc[1], "element 1 is stored in the canonical element layout"); }
+            }
+            __post_return_echo_pairs::<Impl>(ret);
+            kani::assert(!LEDGER_FULL, "HARNESS-LIMIT: allocation ledger full");
+            if memory { kani::assert(!BAD_FREE, "every block is freed at most once, with the size and alignment it was allocated with"); }
+            if memory { kani::assert(live_blocks() == 0, "nothing is left allocated after post-return"); }
+        }
+        kani::cover!(n == 2 && m == 2);
+    }
+    #[kani::proof]
+    #[kani::unwind(4)]
+    #[kani::stub(alloc::alloc::alloc, alloc_stub)]
+    #[kani::stub(alloc::alloc::dealloc, dealloc_stub)]
+    #[kani::stub(alloc::alloc::realloc, realloc_stub)]
+    #[kani::stub(alloc::alloc::dealloc_nonnull, dealloc_nonnull_stub)]
+    #[kani::stub(alloc::alloc::realloc_nonnull, realloc_nonnull_stub)]
+    pub fn c05_list_of_pairs_unchanged_both_ways() {
+        body_list_of_pairs(true, false);
+    }
+    #[kani::proof]
+    #[kani::unwind(4)]
+    #[kani::stub(alloc::alloc::alloc, alloc_stub)]
+    #[kani::stub(alloc::alloc::dealloc, dealloc_stub)]
+    #[kani::stub(alloc::alloc::realloc, realloc_stub)]
+    #[kani::stub(alloc::alloc::dealloc_nonnull, dealloc_nonnull_stub)]
+    #[kani::stub(alloc::alloc::realloc_nonnull, realloc_nonnull_stub)]
+    pub fn c06_list_of_pairs_memory_balanced() {
+        body_list_of_pairs(false, true);
+    }
+
+    /// import with option<list<string>>: the (ptr, len) records are written into scratch memory inside the `Some` arm; that
+    /// buffer is still allocated while the callee runs, holds the element records, and is freed exactly once after the call
+    #[kani::proof]
+    #[kani::unwind(18)] // the scratch buffer (2 pointers = 16 bytes) is poisoned byte by byte when freed
+    #[kani::stub(alloc::alloc::alloc, alloc_stub)]
+    #[kani::stub(alloc::alloc::dealloc, dealloc_stub)]
+    #[kani::stub(alloc::alloc::realloc, realloc_stub)]
+    #[kani::stub(alloc::alloc::dealloc_nonnull, dealloc_nonnull_stub)]
+    #[kani::stub(alloc::alloc::realloc_nonnull, realloc_nonnull_stub)]
+    pub fn c06_import_nested_list_scratch_alive_during_call_freed_once() {
+        let some: bool = kani::any();
+        let b = ascii2();
+        unsafe {
+            let elems = [string_of(&b, 1)];
+            let before = live_blocks();
+            let r = if some { verif::val::sinks::nested_list(Some(&elems)) } else { verif::val::sinks::nested_list(None) };
+            kani::assert(SINK_CALLS == 1 && r == some as u32, "exactly one core call");
+            if some {
+                kani::assert(SINK_LEN == 1 && SINK_RECORDS_LIVE, "the scratch buffer holding the element records is still allocated while the callee runs");
+                kani::assert(SINK_ELEM0 == (elems[0].as_ptr() as usize, 1) && SINK_FIRST_BYTE == b[0], "the callee reads the caller's string through the record");
+            }
+            kani::assert(!LEDGER_FULL, "HARNESS-LIMIT: allocation ledger full");
+            kani::assert(!BAD_FREE, "the scratch buffer is freed at most once, with its own layout");
+            kani::assert(live_blocks() == before, "after the call only the caller's own data is allocated: the scratch buffer was freed");
+        }
+        kani::cover!(some);
     }
 }
